@@ -26,7 +26,7 @@ for p in props:
             "engine": "verif-engine",
             "level_claimed": {"category": "exploration", "text": text, "design_ref": f"DESIGN.md §2 {i}"},
             "level_note": note,
-            "technique": tech,
+            "technique": tech + "; thorough tier adds coverage-guided fuzzing (libFuzzer via cargo-fuzz) whose input bytes are the random stream of the same generator, decided by the same oracle and re-decided/shrunk by the release engine",
         })
     else:
         na.append({"property_id": i, "reason": "check not built yet in this tree (planned in DESIGN.md §2; property-based testing applies)"})
@@ -45,7 +45,7 @@ m = {
         "add_only": True,
     },
     "engines": [
-        {"name": "verif-engine", "path": "/verif/engine", "serves_properties": sorted(CLAIMED), "kind_free_text": "Rust binary: proptest 1.11 TestRunner (fixed seed from VERIF_SEED, sharded over 16 threads), explicit oracles written in the harness, shrinking to a JSON replay file, killable worker processes for termination clauses; cargo-fuzz/libFuzzer targets under /verif/fuzz in the thorough tier"},
+        {"name": "verif-engine", "path": "/verif/engine", "serves_properties": sorted(CLAIMED), "kind_free_text": "Rust binary: proptest 1.11 TestRunner (fixed seed from VERIF_SEED, sharded over 16 threads), explicit oracles written in the harness, shrinking to a JSON replay file, killable worker processes for termination clauses; one cargo-fuzz/libFuzzer target under /verif/fuzz (property selected by VERIF_FUZZ_PROP; bytes = pass-through random stream of the property's strategy, vendored proptest with a patched pass-through RNG) run by the thorough tier after the generated search"},
     ],
     "checks": checks,
     "notes": "Family: property-based testing and fuzzing. Exit 0 = held on everything explored, 1 = VIOLATION line + replay file, 2 = inconclusive (build failure). Known findings: /verif/known_findings.json.",
